@@ -61,13 +61,15 @@ pub struct Resolved {
     pub lookups: Vec<(u16, u32)>,
     pub fv_record: Option<usize>,
     pub fv_substituted: bool,
+    /// events of the feature-variation selection (evidence classes)
+    pub fv_events: BTreeSet<&'static str>,
     pub ambiguous: BTreeSet<&'static str>,
     pub langsys_found: bool,
 }
 
 /// Feature selection: script/langsys, feature variations, tags -> lookup indices.
 pub fn resolve(g: &Gsub, sel: &Selection) -> Resolved {
-    let mut r = Resolved { lookups: Vec::new(), fv_record: None, fv_substituted: false, ambiguous: BTreeSet::new(), langsys_found: false };
+    let mut r = Resolved { lookups: Vec::new(), fv_record: None, fv_substituted: false, fv_events: BTreeSet::new(), ambiguous: BTreeSet::new(), langsys_found: false };
     let script = match g.scripts.iter().find(|s| s.tag == sel.script).or_else(|| g.scripts.iter().find(|s| s.tag == DFLT)) {
         Some(s) => s,
         None => return r,
@@ -78,18 +80,55 @@ pub fn resolve(g: &Gsub, sel: &Selection) -> Resolved {
     };
     r.langsys_found = true;
     // feature variations
+    // The first record whose condition set matches is used and no other record is considered,
+    // also when it substitutes nothing (NULL substitution offset, empty substitution table, or a
+    // table that does not list the feature). A NULL condition-set offset and a condition set
+    // without conditions match every instance.
     let mut subst: Option<&FvRecord> = None;
     if let (Some(t), Some(fv)) = (sel.tuple, g.fv.as_ref()) {
+        let holds = |rec: &FvRecord| match &rec.conds {
+            None => true,
+            Some(cs) => cs.iter().all(|c| (c.axis as usize) < t.len() && c.min <= t[c.axis as usize] && t[c.axis as usize] <= c.max),
+        };
         for (k, rec) in fv.iter().enumerate() {
-            let ok = match &rec.conds {
-                None => true,
-                Some(cs) => cs.iter().all(|c| (c.axis as usize) < t.len() && c.min <= t[c.axis as usize] && t[c.axis as usize] <= c.max),
-            };
-            if ok {
+            if holds(rec) {
                 subst = Some(rec);
                 r.fv_record = Some(k);
+                if k > 0 {
+                    r.fv_events.insert("feature-variations:earlier-record-did-not-match");
+                }
+                match &rec.conds {
+                    None => {
+                        r.fv_events.insert("feature-variations:first-match-has-null-condition-set");
+                    }
+                    Some(c) if c.is_empty() => {
+                        r.fv_events.insert("feature-variations:first-match-has-empty-condition-set");
+                    }
+                    Some(c) if c.len() > 1 => {
+                        r.fv_events.insert("feature-variations:first-match-has-several-conditions");
+                    }
+                    _ => {}
+                }
+                match &rec.substs {
+                    None => {
+                        r.fv_events.insert("feature-variations:first-match-has-null-substitution");
+                    }
+                    Some(s) if s.is_empty() => {
+                        r.fv_events.insert("feature-variations:first-match-has-empty-substitution-table");
+                    }
+                    _ => {}
+                }
+                if let Some(later) = fv[k + 1..].iter().find(|x| holds(x)) {
+                    r.fv_events.insert("feature-variations:later-record-also-matches");
+                    if later.substs.as_ref().map_or(false, |s| !s.is_empty()) && rec.substs.is_none() {
+                        r.fv_events.insert("feature-variations:null-substitution-shadows-later-substituting-record");
+                    }
+                }
                 break;
             }
+        }
+        if subst.is_none() && !fv.is_empty() {
+            r.fv_events.insert("feature-variations:no-record-matches");
         }
     }
     let mut chosen: BTreeMap<u16, u32> = BTreeMap::new();
@@ -103,9 +142,16 @@ pub fn resolve(g: &Gsub, sel: &Selection) -> Resolved {
         };
         let mut lookups = &f.lookups;
         if let Some(rec) = subst {
-            if let Some((_, l)) = rec.substs.iter().find(|(i, _)| *i == fi) {
-                lookups = l;
-                r.fv_substituted = true;
+            match rec.substs.as_ref().and_then(|s| s.iter().find(|(i, _)| *i == fi)) {
+                Some((_, l)) => {
+                    lookups = l;
+                    r.fv_substituted = true;
+                }
+                None => {
+                    if rec.substs.as_ref().map_or(false, |s| !s.is_empty()) {
+                        r.fv_events.insert("feature-variations:first-match-does-not-cover-enabled-feature");
+                    }
+                }
             }
         }
         for &l in lookups {
@@ -765,6 +811,9 @@ pub fn run(p: &Program, sel: &Selection, input: &[MGlyph]) -> Outcome {
     if res.fv_substituted {
         it.out.classes.insert("feature-variation-substituted-feature".to_string());
     }
+    for e in &res.fv_events {
+        it.out.classes.insert(e.to_string());
+    }
     for &(l, tag) in &res.lookups {
         if let Some(&(_, a)) = sel.alternates.iter().find(|(t, _)| *t == tag) {
             it.alt_of_lookup.insert(l, a);
@@ -902,12 +951,29 @@ pub fn unit_vectors() -> Vec<String> {
     let p = prog(None, vec![lk(5, 0, None, vec![c2]), lk(1, 0, None, vec![single(&[1], &[9])])], vec![vec![0]], None);
     check("class-zero-first-glyph", &p, &[tagn(0)], None, &[1, 2, 2, 1], &[(9, "a"), (2, "b"), (2, "c"), (1, "d")]);
     // V10 feature variations: first matching record, inclusive range ends, substitute feature table
-    let fv = vec![FvRecord { conds: Some(vec![Cond { axis: 0, min: 0, max: 8192 }]), substs: vec![(0, vec![1])] }];
+    let fv = vec![FvRecord { conds: Some(vec![Cond { axis: 0, min: 0, max: 8192 }]), substs: Some(vec![(0, vec![1])]) }];
     let p = prog(None, vec![lk(1, 0, None, vec![single(&[1], &[2])]), lk(1, 0, None, vec![single(&[1], &[3])])], vec![vec![0]], Some(fv));
     check("feature-variation-inside", &p, &[tagn(0)], Some(&[8192i16][..]), &[1], &[(3, "a")]);
     check("feature-variation-outside", &p, &[tagn(0)], Some(&[8193i16][..]), &[1], &[(2, "a")]);
     check("feature-variation-lower-edge", &p, &[tagn(0)], Some(&[0i16][..]), &[1], &[(3, "a")]);
     check("feature-variation-below", &p, &[tagn(0)], Some(&[-1i16][..]), &[1], &[(2, "a")]);
+    // V11 the first matching record is final even when it substitutes nothing
+    let mk = |recs: Vec<FvRecord>| prog(None, vec![lk(1, 0, None, vec![single(&[1], &[2])]), lk(1, 0, None, vec![single(&[1], &[3])])], vec![vec![0]], Some(recs));
+    let inside = Cond { axis: 0, min: 0, max: 8192 };
+    let p = mk(vec![FvRecord { conds: Some(vec![inside.clone()]), substs: None }, FvRecord { conds: Some(vec![inside.clone()]), substs: Some(vec![(0, vec![1])]) }]);
+    check("null-substitution-is-final", &p, &[tagn(0)], Some(&[100i16][..]), &[1], &[(2, "a")]);
+    check("null-substitution-not-matching", &p, &[tagn(0)], Some(&[-5i16][..]), &[1], &[(2, "a")]);
+    let p = mk(vec![FvRecord { conds: Some(vec![Cond { axis: 0, min: 4000, max: 8192 }]), substs: None }, FvRecord { conds: Some(vec![inside.clone()]), substs: Some(vec![(0, vec![1])]) }]);
+    check("second-record-when-first-does-not-match", &p, &[tagn(0)], Some(&[100i16][..]), &[1], &[(3, "a")]);
+    check("first-record-null-shadows-second", &p, &[tagn(0)], Some(&[5000i16][..]), &[1], &[(2, "a")]);
+    let p = mk(vec![FvRecord { conds: Some(vec![inside.clone()]), substs: Some(vec![]) }, FvRecord { conds: None, substs: Some(vec![(0, vec![1])]) }]);
+    check("empty-substitution-table-is-final", &p, &[tagn(0)], Some(&[100i16][..]), &[1], &[(2, "a")]);
+    check("null-condition-set-matches-everything", &p, &[tagn(0)], Some(&[-16384i16][..]), &[1], &[(3, "a")]);
+    let p = mk(vec![FvRecord { conds: Some(vec![]), substs: Some(vec![(0, vec![1])]) }]);
+    check("empty-condition-set-matches-everything", &p, &[tagn(0)], Some(&[-16384i16][..]), &[1], &[(3, "a")]);
+    let p = mk(vec![FvRecord { conds: Some(vec![inside.clone(), Cond { axis: 0, min: 50, max: 60 }]), substs: Some(vec![(0, vec![1])]) }]);
+    check("conditions-are-conjunctive", &p, &[tagn(0)], Some(&[100i16][..]), &[1], &[(2, "a")]);
+    check("conditions-all-hold", &p, &[tagn(0)], Some(&[55i16][..]), &[1], &[(3, "a")]);
     drop(check);
     fails
 }
